@@ -699,3 +699,125 @@ func RunEffectControls(r *Report) {
 	}
 	r.Floor("effectcontrol", 37)
 }
+
+// RunMapdetControls runs the order-sensitivity analysis on the ctlMap*
+// examples of /verif/controls/mapdet.go.
+func RunMapdetControls(r *Report) {
+	r.Rule("mapdetcontrol: the order-sensitivity analysis, run on the must-report and must-pass examples in /verif/controls/mapdet.go, reports every function whose result can depend on map iteration order (unsorted or partially sorted collection, first/last writer, concatenation, floating-point sum, output in the loop, colliding index, break, arg-min, numbering) and none of the order-insensitive ones")
+	cw, err := controlWorld(r.verifDir)
+	if err != nil {
+		r.Fail("mapdetcontrol", r.MkKey("mapdetcontrol", "controls", "load"), "-", "cannot load the control package: "+err.Error(), nil)
+		return
+	}
+	var fns []*ssa.Function
+	for _, f := range cw.LibFuncs() {
+		if strings.HasPrefix(f.Name(), "ctlMap") && f.Parent() == nil {
+			fns = append(fns, f)
+		}
+	}
+	sort.Slice(fns, func(i, j int) bool { return fnName(fns[i]) < fnName(fns[j]) })
+	sub := NewReport(r.Property, r.Tier, r.verifDir)
+	sub.table = map[string]TableEntry{}
+	sub.known = map[string]KnownFinding{}
+	sub.W = cw
+	func() {
+		defer func() {
+			if x := recover(); x != nil {
+				r.Fatal("mapdet panic on the control package: %v", x)
+			}
+		}()
+		RunMapdet(cw, NewEffects(cw), sub, "mapdet", fns)
+	}()
+	for _, fn := range fns {
+		reported, total := "", 0
+		for _, o := range sub.Obls {
+			if o.Rule != "mapdet" {
+				continue
+			}
+			parts := strings.Split(o.Key, "|")
+			if len(parts) < 2 || parts[1] != fnName(fn) {
+				continue
+			}
+			total++
+			if o.Status == StViolation && reported == "" {
+				reported = o.Detail
+			}
+		}
+		key := r.MkKey("mapdetcontrol", fn.Name(), "verdict")
+		bad := strings.HasPrefix(fn.Name(), "ctlMapBad")
+		switch {
+		case total == 0:
+			r.Fail("mapdetcontrol", key, cw.Pos(fn.Pos()), "the analysis found no map iteration in this example", nil)
+		case bad && reported != "":
+			r.OK("mapdetcontrol", key, cw.Pos(fn.Pos()), "reported: "+reported)
+		case bad:
+			r.Fail("mapdetcontrol", key, cw.Pos(fn.Pos()), "the result of this example depends on map iteration order and the analysis accepts it: the analysis is unsound", nil)
+		case reported == "":
+			r.OK("mapdetcontrol", key, cw.Pos(fn.Pos()), "accepted")
+		default:
+			r.Fail("mapdetcontrol", key, cw.Pos(fn.Pos()), "this order-insensitive example is reported: "+reported, nil)
+		}
+	}
+	r.Floor("mapdetcontrol", 26)
+}
+
+// RunLosslessControls runs the narrowing-conversion rule on the ctlNarrow*
+// examples of /verif/controls/lossless.go.
+func RunLosslessControls(r *Report) {
+	r.Rule("losslesscontrol: the narrowing-conversion rule, run on the must-report and must-pass examples in /verif/controls/lossless.go, reports every conversion that can change the value (guard on another variable, off by one, after the fact, on one path only; missing pieces; sums and products; negative values; lengths; signed targets; masks wider than the target) and none of the safe ones")
+	cw, err := controlWorld(r.verifDir)
+	if err != nil {
+		r.Fail("losslesscontrol", r.MkKey("losslesscontrol", "controls", "load"), "-", "cannot load the control package: "+err.Error(), nil)
+		return
+	}
+	var fns []*ssa.Function
+	for _, f := range cw.LibFuncs() {
+		if strings.HasPrefix(f.Name(), "ctlNarrow") && f.Name() != "ctlNarrowArith" && f.Parent() == nil {
+			fns = append(fns, f)
+		}
+	}
+	sort.Slice(fns, func(i, j int) bool { return fnName(fns[i]) < fnName(fns[j]) })
+	sub := NewReport(r.Property, r.Tier, r.verifDir)
+	sub.table = map[string]TableEntry{}
+	sub.known = map[string]KnownFinding{}
+	sub.W = cw
+	func() {
+		defer func() {
+			if x := recover(); x != nil {
+				r.Fatal("lossless panic on the control package: %v", x)
+			}
+		}()
+		RunLossless(cw, sub, "lossless", newBoundsRun(cw), fns)
+	}()
+	for _, fn := range fns {
+		reported, total := "", 0
+		for _, o := range sub.Obls {
+			if o.Rule != "lossless" {
+				continue
+			}
+			parts := strings.Split(o.Key, "|")
+			if len(parts) < 2 || parts[1] != fnName(fn) {
+				continue
+			}
+			total++
+			if o.Status == StViolation && reported == "" {
+				reported = o.Detail
+			}
+		}
+		key := r.MkKey("losslesscontrol", fn.Name(), "verdict")
+		bad := strings.HasPrefix(fn.Name(), "ctlNarrowBad")
+		switch {
+		case total == 0:
+			r.Fail("losslesscontrol", key, cw.Pos(fn.Pos()), "the rule found no narrowing conversion in this example", nil)
+		case bad && reported != "":
+			r.OK("losslesscontrol", key, cw.Pos(fn.Pos()), "reported: "+reported)
+		case bad:
+			r.Fail("losslesscontrol", key, cw.Pos(fn.Pos()), "a conversion in this example can change the value and the rule accepts it: the rule is unsound", nil)
+		case reported == "":
+			r.OK("losslesscontrol", key, cw.Pos(fn.Pos()), "accepted")
+		default:
+			r.Fail("losslesscontrol", key, cw.Pos(fn.Pos()), "this safe example is reported: "+reported, nil)
+		}
+	}
+	r.Floor("losslesscontrol", 20)
+}
